@@ -917,6 +917,18 @@ def s_opt_ok_or_else(vm, st, callee, args, dest, ret_bb, m):
     return on_option(vm, st, args[0], none_, lambda s, p: vm.ret(s, dest, ret_bb, Agg(0, [p], 'Result')))
 
 
+def s_opt_or_else(vm, st, callee, args, dest, ret_bb, m):
+    # Option<T>::or_else(f): self when Some, else f()
+    def none_(s):
+        def after(vm_, st_, nf, value):
+            st_.frames.pop()
+            return vm_.ret(st_, nf.dest, nf.ret_bb, value)
+        s.frames.append(NativeFrame('then', after, dest, ret_bb))
+        vm.call_closure(s, args[1], [], None, None)
+        return None
+    return on_option(vm, st, args[0], none_, lambda s, p: vm.ret(s, dest, ret_bb, some(p)))
+
+
 def s_try_branch(vm, st, callee, args, dest, ret_bb, m):
     # <Result<T,E> as Try>::branch -> ControlFlow<Result<Infallible,E>, T>  (Continue = 0, Break = 1)
     v = args[0]
@@ -1563,6 +1575,7 @@ TABLE = [
     (r'^Option::<.*>::as_deref$', s_opt_as_deref),
     (r'^Option::<&.*>::(copied|cloned)$', s_opt_copied),
     (r'^Option::<.*>::ok_or_else::<', s_opt_ok_or_else),
+    (r'^Option::<.*>::or_else::<', s_opt_or_else),
     (r'^<(Result|Option)<.*> as (std::ops::)?Try>::branch$', s_try_branch),
     (r'^<(Result|Option)<.*> as (std::ops::)?FromResidual<.*>>::from_residual$', s_from_residual),
     # identity-like
